@@ -96,30 +96,52 @@ C02_Q = [
     H("k_elem_split_n8", "ElementParser::feed split at every cut, <=8 bytes, 3 start states", ["end found in second piece"]),
     H("k_pi_split_n8", "PiParser::feed split at every cut, <=8 bytes", ["cut between ? and >"]),
     H("k_bang_split_n8", "BangType::parse with buffer/chunk split at every cut, <=8 bytes, 3 kinds",
-      ["comment terminator split as --|>", "comment terminator split as -|->", "cdata terminator split as ]|]>", "doctype end in second piece"], cost=3),
-    H("b2_tag_n4", BUF + "start/empty tag <=4 bytes", ["event assembled from two pieces"], cost=5),
-    H("b2_end_n4", BUF + "end tag <=4 bytes", [], cost=5),
-    H("b2_pi_n4", BUF + "PI <=4 bytes", [], cost=5),
-    H("b2_bang_n4", BUF + "'!' <=4 bytes", [], cost=5),
-    H("b2_comment_n4", BUF + "'!--'+<=4 bytes", ["event assembled from two pieces"], cost=7),
-    H("b2_text_n4", BUF + "InsideText <=4 bytes", [], cost=6),
-    H("b2_init_n4", BUF + "Init <=4 bytes, first piece >= 4 bytes or everything", [], cost=6),
-    H("b2_initbom_n3", BUF + "Init, BOM + <=3 bytes, first piece >= 4", [], cost=7),
+      ["comment terminator split as --|>", "comment terminator split as -|->", "cdata terminator split as ]|]>", "doctype end in second piece"], cost=9),
+    H("h2_text_n4", "one XmlSource helper (read_text) on a BufRead delivering <=4 symbolic bytes in 2 pieces (cut symbolic) vs the same helper of the slice source on the same bytes (hooks verif_source)", [], cost=6),
+    H("h2_elem_n4", "one XmlSource helper (read_with(ElementParser)) on a BufRead delivering <=4 symbolic bytes in 2 pieces (cut symbolic) vs the same helper of the slice source on the same bytes (hooks verif_source)", [], cost=6),
+    H("h2_pi_n4", "one XmlSource helper (read_with(PiParser)) on a BufRead delivering <=4 symbolic bytes in 2 pieces (cut symbolic) vs the same helper of the slice source on the same bytes (hooks verif_source)", [], cost=6),
+    H("h2_bang_n4", "one XmlSource helper (read_bang_element) on a BufRead delivering <=4 symbolic bytes in 2 pieces (cut symbolic) vs the same helper of the slice source on the same bytes (hooks verif_source)", [], cost=6),
+    H("h2_skipws_n4", "one XmlSource helper (skip_whitespace) on a BufRead delivering <=4 symbolic bytes in 2 pieces (cut symbolic) vs the same helper of the slice source on the same bytes (hooks verif_source)", [], cost=6),
+    H("h2_peek_n4", "one XmlSource helper (peek_one) on a BufRead delivering <=4 symbolic bytes in 2 pieces (cut symbolic) vs the same helper of the slice source on the same bytes (hooks verif_source)", [], cost=6),
+    H("h2_bom_n4", "one XmlSource helper (remove_utf8_bom) on a BufRead delivering <=4 symbolic bytes in 2 pieces (cut symbolic) vs the same helper of the slice source on the same bytes (hooks verif_source)", [], cost=6),
 ]
 C02_T = [
     H("k_elem_split_n12", "ElementParser::feed split at every cut, <=12 bytes", []),
     H("k_pi_split_n12", "PiParser::feed split at every cut, <=12 bytes", []),
-    H("k_bang_split_n12", "BangType::parse split at every cut, <=12 bytes", [], cost=5),
-    H("b2_cdata_n4", BUF + "'![CDATA['+<=4 bytes", [], cost=9, timeout_thorough=3600),
-    H("b2_doctype_n4", BUF + "'!DOCTYPE'+<=4 bytes", [], cost=9, timeout_thorough=3600),
+    H("k_bang_split_n12", "BangType::parse split at every cut, <=12 bytes", [], cost=9, timeout_thorough=5400),
+    H("h2_text_n5", "one XmlSource helper (read_text) on a BufRead delivering <=5 symbolic bytes in 2 pieces (cut symbolic) vs the same helper of the slice source on the same bytes (hooks verif_source)", [], cost=9, timeout_thorough=3600, mem_gb=24),
+    H("h2_text_n8k2", "one XmlSource helper (read_text) on a BufRead delivering <=8 symbolic bytes in 3 pieces (cut symbolic) vs the same helper of the slice source on the same bytes (hooks verif_source)", [], cost=9, timeout_thorough=5400, mem_gb=24),
+    H("h2_elem_n5", "one XmlSource helper (read_with(ElementParser)) on a BufRead delivering <=5 symbolic bytes in 2 pieces (cut symbolic) vs the same helper of the slice source on the same bytes (hooks verif_source)", [], cost=9, timeout_thorough=3600, mem_gb=24),
+    H("h2_elem_n8k2", "one XmlSource helper (read_with(ElementParser)) on a BufRead delivering <=8 symbolic bytes in 3 pieces (cut symbolic) vs the same helper of the slice source on the same bytes (hooks verif_source)", [], cost=9, timeout_thorough=5400, mem_gb=24),
+    H("h2_pi_n5", "one XmlSource helper (read_with(PiParser)) on a BufRead delivering <=5 symbolic bytes in 2 pieces (cut symbolic) vs the same helper of the slice source on the same bytes (hooks verif_source)", [], cost=9, timeout_thorough=3600, mem_gb=24),
+    H("h2_pi_n8k2", "one XmlSource helper (read_with(PiParser)) on a BufRead delivering <=8 symbolic bytes in 3 pieces (cut symbolic) vs the same helper of the slice source on the same bytes (hooks verif_source)", [], cost=9, timeout_thorough=5400, mem_gb=24),
+    H("h2_bang_n5", "one XmlSource helper (read_bang_element) on a BufRead delivering <=5 symbolic bytes in 2 pieces (cut symbolic) vs the same helper of the slice source on the same bytes (hooks verif_source)", [], cost=9, timeout_thorough=3600, mem_gb=24),
+    H("h2_bang_n8k2", "one XmlSource helper (read_bang_element) on a BufRead delivering <=8 symbolic bytes in 3 pieces (cut symbolic) vs the same helper of the slice source on the same bytes (hooks verif_source)", [], cost=9, timeout_thorough=5400, mem_gb=24),
+    H("h2_skipws_n5", "one XmlSource helper (skip_whitespace) on a BufRead delivering <=5 symbolic bytes in 2 pieces (cut symbolic) vs the same helper of the slice source on the same bytes (hooks verif_source)", [], cost=9, timeout_thorough=3600, mem_gb=24),
+    H("h2_skipws_n8k2", "one XmlSource helper (skip_whitespace) on a BufRead delivering <=8 symbolic bytes in 3 pieces (cut symbolic) vs the same helper of the slice source on the same bytes (hooks verif_source)", [], cost=9, timeout_thorough=5400, mem_gb=24),
+    H("h2_peek_n5", "one XmlSource helper (peek_one) on a BufRead delivering <=5 symbolic bytes in 2 pieces (cut symbolic) vs the same helper of the slice source on the same bytes (hooks verif_source)", [], cost=9, timeout_thorough=3600, mem_gb=24),
+    H("h2_peek_n8k2", "one XmlSource helper (peek_one) on a BufRead delivering <=8 symbolic bytes in 3 pieces (cut symbolic) vs the same helper of the slice source on the same bytes (hooks verif_source)", [], cost=9, timeout_thorough=5400, mem_gb=24),
+    H("h2_bom_n5", "one XmlSource helper (remove_utf8_bom) on a BufRead delivering <=5 symbolic bytes in 2 pieces (cut symbolic) vs the same helper of the slice source on the same bytes (hooks verif_source)", [], cost=9, timeout_thorough=3600, mem_gb=24),
+    H("h2_bom_n8k2", "one XmlSource helper (remove_utf8_bom) on a BufRead delivering <=8 symbolic bytes in 3 pieces (cut symbolic) vs the same helper of the slice source on the same bytes (hooks verif_source)", [], cost=9, timeout_thorough=5400, mem_gb=24),
 ]
-FLT = "buffered step over a source with a solver-chosen fault (none / Interrupted / other error) at each of its first 3 refills, 2 pieces; "
+FLT = "buffered step over a source with a solver-chosen fault (none / Interrupted / one of 6 other error kinds incl. UnexpectedEof, WouldBlock) at each of its first 3 refills, 2 pieces; "
 C18_Q = [
-    H("b18_tag_n3", FLT + "start/empty tag <=3 bytes", ["interrupted and completed", "io error delivered"], cost=6),
-    H("b18_bang_n3", FLT + "'!' <=3 bytes", ["io error delivered"], cost=6),
-    H("b18_comment_n3", FLT + "'!--'+<=3 bytes", ["interrupted and completed", "io error delivered"], cost=7),
-    H("b18_text_n3", FLT + "InsideText <=3 bytes", ["interrupted and completed", "io error delivered"], cost=6),
-    H("b18_init_n3", FLT + "Init <=3 bytes", ["io error delivered"], cost=6),
+    H("h18_text_n3", "one XmlSource helper (read_text) on a BufRead delivering <=3 symbolic bytes in 2 pieces, with a solver-chosen fault (none / Interrupted / one of 6 other error kinds) at each of its first 3 refills, vs the slice helper", ["io error delivered"], cost=6),
+    H("h18_elem_n3", "one XmlSource helper (read_with(ElementParser)) on a BufRead delivering <=3 symbolic bytes in 2 pieces, with a solver-chosen fault (none / Interrupted / one of 6 other error kinds) at each of its first 3 refills, vs the slice helper", ["io error delivered"], cost=6),
+    H("h18_pi_n3", "one XmlSource helper (read_with(PiParser)) on a BufRead delivering <=3 symbolic bytes in 2 pieces, with a solver-chosen fault (none / Interrupted / one of 6 other error kinds) at each of its first 3 refills, vs the slice helper", ["io error delivered"], cost=6),
+    H("h18_bang_n3", "one XmlSource helper (read_bang_element) on a BufRead delivering <=3 symbolic bytes in 2 pieces, with a solver-chosen fault (none / Interrupted / one of 6 other error kinds) at each of its first 3 refills, vs the slice helper", ["io error delivered"], cost=6),
+    H("h18_skipws_n3", "one XmlSource helper (skip_whitespace) on a BufRead delivering <=3 symbolic bytes in 2 pieces, with a solver-chosen fault (none / Interrupted / one of 6 other error kinds) at each of its first 3 refills, vs the slice helper", ["io error delivered"], cost=6),
+    H("h18_peek_n3", "one XmlSource helper (peek_one) on a BufRead delivering <=3 symbolic bytes in 2 pieces, with a solver-chosen fault (none / Interrupted / one of 6 other error kinds) at each of its first 3 refills, vs the slice helper", ["io error delivered"], cost=6),
+    H("h18_bom_n3", "one XmlSource helper (remove_utf8_bom) on a BufRead delivering <=3 symbolic bytes in 2 pieces, with a solver-chosen fault (none / Interrupted / one of 6 other error kinds) at each of its first 3 refills, vs the slice helper", ["io error delivered"], cost=6),
+]
+C18_T = [
+    H("h18_text_n4", "same, <=4 bytes", ["io error delivered"], cost=9, timeout_thorough=3600, mem_gb=24),
+    H("h18_elem_n4", "same, <=4 bytes", ["io error delivered"], cost=9, timeout_thorough=3600, mem_gb=24),
+    H("h18_pi_n4", "same, <=4 bytes", ["io error delivered"], cost=9, timeout_thorough=3600, mem_gb=24),
+    H("h18_bang_n4", "same, <=4 bytes", ["io error delivered"], cost=9, timeout_thorough=3600, mem_gb=24),
+    H("h18_skipws_n4", "same, <=4 bytes", ["io error delivered"], cost=9, timeout_thorough=3600, mem_gb=24),
+    H("h18_peek_n4", "same, <=4 bytes", ["io error delivered"], cost=9, timeout_thorough=3600, mem_gb=24),
+    H("h18_bom_n4", "same, <=4 bytes", ["io error delivered"], cost=9, timeout_thorough=3600, mem_gb=24),
 ]
 
 C10_Q = [
@@ -133,6 +155,8 @@ C10_Q = [
     H("x10_esc_full_1", "escape on every 1-byte ASCII string: table image, forbidden characters absent, borrowed iff unchanged", ["something escaped"], cost=6),
     H("x10_esc_part_1", "partial_escape on every 1-byte ASCII string", ["something escaped"], cost=6),
     H("x10_esc_min_1", "minimal_escape on every 1-byte ASCII string", ["something escaped"], cost=6),
+    H("x10_esc_full_u2", "escape on 'a' + every 2-byte UTF-8 scalar (U+0080..U+07FF): untouched and borrowed", [], cost=4),
+    H("x10_esc_min_u2", "minimal_escape on 'a' + every 2-byte UTF-8 scalar", [], cost=4),
     H("x10_inv_lt", "inverse by composition: unescape('&lt;') (concrete execution)", []),
     H("x10_inv_gt", "unescape('&gt;') (concrete execution)", []),
     H("x10_inv_amp", "unescape('&amp;') (concrete execution)", []),
@@ -174,6 +198,8 @@ C05_Q = [
     H("n5_iter_s1", NSK + "prefixes() listing, <=2 user bindings; shape 1", ["two prefixes listed"], cost=4),
     H("n5_pop_s2", NSK + "pop(); shape 2", ["pop drops some and keeps some"], cost=3),
     H("n5_iter_s2", NSK + "prefixes() listing, <=2 user bindings; shape 2", ["two prefixes listed"], cost=4),
+    H("n5_iter_s4", NSK + "prefixes() listing, 2 user bindings; shape p-unbound,q", [], cost=4),
+    H("n5_iter_s5", NSK + "prefixes() listing, 2 user bindings; shape default-removed,p", [], cost=4),
 ]
 C05_T = [
     H("n5_resolve_s3", NSK + "resolve; shape default,default,p", [], cost=3),
@@ -194,6 +220,7 @@ C19_Q = [
     H("w19_eof", "one Writer::write_event(eof) from an arbitrary indentation state (should_line_break, depth<=200, indent char, width 0..9) vs the plain writer, through a recording sink", [], cost=1),
     H("w19_start_grow", "same, Start, indent buffer of 128 and depth 110..128: growth past the preallocation", ["indent buffer grown past the preallocation"], cost=2),
     H("w19_end_grow", "same, End", [], cost=2),
+    H("w19_two_starts_grow", "two Start events in a row from depth 120..128 with a 128-byte indent buffer, then a Comment", ["indent buffer grown twice"], cost=2),
     H("w19_comment_grow", "same, Comment", [], cost=2),
 ]
 C08_W = [
@@ -264,9 +291,9 @@ PLAN = {
   "C04": {"quick": C04_Q, "thorough": [], "labels": ["C04", "C16"], "evidence": {}},
   "C08": {"quick": C08_Q + C08_W, "thorough": [], "evidence": {}},
   "C19": {"quick": C19_Q, "thorough": [], "evidence": {}},
-  "C16": {"quick": C16_Q, "thorough": C16_T, "labels": ["C16", "C01"], "evidence": {}},
+  "C16": {"quick": C16_Q + [H("e_start_n8", "ReaderState::emit_start on every scanner output <=8 bytes (expansion: the remembered name)", [], cost=2)], "thorough": C16_T, "labels": ["C16", "C01"], "evidence": {}},
   "C02": {"quick": C02_Q, "thorough": C02_T, "labels": ["C02", "C01"], "evidence": {}},
-  "C18": {"quick": C18_Q, "thorough": [], "labels": ["C18", "C02", "C01"], "evidence": {}},
+  "C18": {"quick": C18_Q, "thorough": C18_T, "labels": ["C18", "C02", "C01"], "evidence": {}},
   "C05": {"quick": C05_Q, "thorough": C05_T, "evidence": {}},
   "C13": {"quick": C13_Q, "thorough": C13_T, "evidence": {}},
   "C17": {"quick": C17_Q, "thorough": [], "evidence": {}},
